@@ -237,9 +237,38 @@ def _chain(job: tuple) -> tuple:
 
 
 # ----------------------------------------------------------------------------- driver side
+def _decorate_names(ast: list, rng: random.Random) -> list:
+    """Event types with leading / trailing blanks and inner punctuation (distinct as strings)."""
+    pick = {}
+
+    def ren(seq: list) -> list:
+        out = []
+        for st in seq:
+            if st[0] == "ev":
+                if st[1] not in pick:
+                    r = rng.random()
+                    pick[st[1]] = st[1] + " " if r < 0.15 else (" " + st[1] if r < 0.25 else (
+                        st[1] + " x" if r < 0.35 else st[1]))
+                out.append(("ev", pick[st[1]]))
+            elif st[0] in ("and", "or", "xor"):
+                out.append((st[0], [ren(b) for b in st[1]]))
+            elif st[0] == "loop":
+                out.append(("loop", ren(st[1])))
+            else:
+                out.append(st)
+        return out
+    return ren(ast)
+
+
 def _defs(rng: random.Random, sync_only: bool) -> tuple[list, list] | None:
     for _ in range(200):
-        ast = gen.random_core(rng, max_events=12)
+        if not sync_only and rng.random() < 0.3:
+            # several start events: the trace's first sibling group is a fork
+            ast, _k = gen.random_edge(rng, "multi-start")
+        else:
+            ast = gen.random_core(rng, max_events=12)
+        if rng.random() < 0.5:
+            ast = _decorate_names(ast, rng)
         tags = gen.tags_of(ast)
         if "detach" in tags:
             continue
